@@ -202,10 +202,20 @@ mutual
       split at he
       · cases he
       · rename_i st1 h1
+        have hb1 := braceClear_bnd (preStep_bnd h h1)
         dsimp only [] at he
         split at he
         · cases he
-        · cases he; exact braceClear_bnd (preStep_bnd h h1)
+        · rename_i st2 hent
+          have hb2 : Bnd st2 := by
+            split at hent
+            · split at hent
+              · exact focus_bnd hb1 hent
+              · cases hent; exact hb1
+            · cases hent; exact hb1
+          split at he
+          · cases he
+          · cases he; exact hb2
     | .list (.cons ds1 i1 rest), st, st', ds, h, he => by
       rw [parseItem] at he
       split at he
